@@ -819,6 +819,27 @@ ZERO_LIMIT_SPEC = {
 }
 
 
+# ties between PARTS of polar complex parameters (shared radius; tied phases), every fit starts — and, stopped early, ends —
+# with a negative radius on the FIRST-listed member of a tie group: standard_complex must leave every member of a tie
+# group alone (adding pi to one member's phase would rotate its partners)
+NEG_R_TIE_SPECS = [
+    {"polar": True, "fix": [], "gauss": {}, "nll_seed": 91, "bounds": {},
+     "centre": {"z0r": -0.9211, "z0i": -0.3894, "z1r": 0.3233, "z1i": -0.9463, "z2r": -0.9178, "z2i": 0.7731},  # Cartesian optimum = negative radius at the start phases
+     "vars": [{"k": "real", "name": "p0", "value": 0.6, "free": True},
+              {"k": "cplx", "name": "z0", "polar": True, "free": True, "vals": [-0.8, 0.4]},
+              {"k": "cplx", "name": "z1", "polar": True, "free": True, "vals": [-0.8, 1.9]},
+              {"k": "cplx", "name": "z2", "polar": True, "free": True, "vals": [-1.1, -0.7]}],
+     "ties": [{"share": ["z0", "z1"]}]},
+    {"polar": True, "fix": [], "gauss": {}, "nll_seed": 92, "bounds": {},
+     "centre": {"z0r": -0.9211, "z0i": -0.3894, "z1r": 0.9211, "z1i": 0.3894},
+     "vars": [{"k": "real", "name": "p0", "value": 0.6, "free": True},
+              {"k": "cplx", "name": "z0", "polar": True, "free": True, "vals": [-0.8, 0.4]},
+              {"k": "cplx", "name": "z1", "polar": True, "free": True, "vals": [0.9, 0.4]},
+              {"k": "cplx", "name": "z2", "polar": True, "free": True, "vals": [1.3, -0.7]}],
+     "ties": [{"names": ["z0i", "z1i"]}]},
+]
+
+
 def _one(method, **opts):
     return [{"method": method, "opts": opts}]
 
@@ -868,6 +889,9 @@ def synth_cases(ctx):
             cases.append(("large", spec, [{"method": "BFGS", "opts": {}}], True))
     for m in (["BFGS", "Newton-CG", "trust-exact", "iminuit", "L-BFGS-B"] + ([] if ctx.quick else ["CG", "Nelder-Mead", "trust-krylov-p", "test"])):
         cases.append(("zero-limit", ZERO_LIMIT_SPEC, _one(m, **({"maxiter": 150} if m == "Nelder-Mead" else {})), False))
+    for spec in NEG_R_TIE_SPECS:
+        for m, o in ([("BFGS", {"maxiter": 0}), ("BFGS", {"maxiter": 2}), ("L-BFGS-B", {"maxiter": 2}), ("BFGS", {})] + ([] if ctx.quick else [("CG", {"maxiter": 2}), ("Newton-CG", {}), ("iminuit", {}), ("L-BFGS-B", {})])):
+            cases.append(("neg-r-tie", spec, _one(m, **o), False))
     for key, (spec, seq, linear) in KNOWN_INPUTS.items():  # the deterministic corpus of the listed findings
         cases.append(("corpus", spec, seq, linear))
     if not ctx.quick:
